@@ -385,9 +385,11 @@ func H_C03_BeginBlock() {
 	books := setupBooks(ee)
 	ee.Bank.AddBase(Addr(0))
 	ee.Bank.AddBase(Addr(1))
-	maxDec := ee.NSign
-	if !rt.Thorough() && maxDec > 2 {
-		maxDec = 2
+	// decisions may stem from signers that governance has since removed from the signer set:
+	// their number is independent of the current signer count
+	maxDec := 2
+	if rt.Thorough() {
+		maxDec = 3
 	}
 	termDec := 0 // decisions carried by non-raised orders (not read by the blocker)
 	if rt.Thorough() {
